@@ -8,7 +8,7 @@
    holds for every junk.  `sort`, `find`, `adler_*` stand for libc qsort / bsearch and zlib adler32.
    This file contains only statements, `exact` proofs and Print Assumptions. *)
 From Coq Require Import ZArith List Bool Permutation.
-From ScV Require Import Base.CInt Gen.Array C18.MacroProofs C08.ArrayModel C08.ArrayLists C08.ArrayGen C08.ArrayRefine C08.ArrayStep C08.ArrayTop.
+From ScV Require Import Base.CInt Gen.Array C18.MacroProofs C08.ArrayModel C08.ArrayLists C08.ArrayGen C08.ArrayRefine C08.ArrayStep C08.ArrayTop C08.ArrayAlgo C08.ArrayFull.
 Import ListNotations.
 Local Open Scope Z_scope.
 
@@ -21,28 +21,35 @@ Local Open Scope Z_scope.
    is_sorted, is_equal, bsearch, checksum, is_permutation) equals the reference value, and the concrete state
    satisfies the invariant `Inv`: count * size <= allocation (owner) | <= view length (view), the addressed bytes lie
    inside the block, no block has two owners, mallocs - frees = number of live structs and blocks, and no access
-   ever left an allocation or a view (c_bad = false).
-   `loops_ok cmp` says that the three hand-modelled loops (uniq, split, permute) compute their definitions;
-   it is discharged for every cmp by C08_loops_ok below when that theorem is present in this file. *)
-Theorem C08_refines_partial : forall junk cmp sort find adler_init adler_upd tyf,
-  (forall l, Permutation (sort l) l) -> loops_ok cmp ->
+   ever left an allocation or a view (c_bad = false).  The only hypothesis is the contract of qsort. *)
+Theorem C08_refines : forall junk cmp sort find adler_init adler_upd tyf,
+  (forall l, Permutation (sort l) l) ->
   forall ops, legal cmp sort find adler_init adler_upd tyf ops = true ->
   (forall h, cobs (run junk cmp sort find adler_init adler_upd tyf ops) h
              = sobs (run_spec cmp sort find adler_init adler_upd tyf ops) h) /\
   c_outs (run junk cmp sort find adler_init adler_upd tyf ops) = s_outs (run_spec cmp sort find adler_init adler_upd tyf ops) /\
   Inv (run junk cmp sort find adler_init adler_upd tyf ops).
-Proof. exact refines. Qed.
-Print Assumptions C08_refines_partial.
+Proof. exact refines_full. Qed.
+Print Assumptions C08_refines.
 
 (* create ... reset/destroy: when the history has destroyed (or reset and abandoned) every array it created,
    every sc_malloc has met its sc_free - the contribution of sc_array to the ledger of C10 is zero *)
-Theorem C08_ledger_balanced_partial : forall junk cmp sort find adler_init adler_upd tyf,
-  (forall l, Permutation (sort l) l) -> loops_ok cmp ->
+Theorem C08_ledger_balanced : forall junk cmp sort find adler_init adler_upd tyf,
+  (forall l, Permutation (sort l) l) ->
   forall ops, legal cmp sort find adler_init adler_upd tyf ops = true ->
   none_live (run_spec cmp sort find adler_init adler_upd tyf ops) = true ->
   c_mallocs (run junk cmp sort find adler_init adler_upd tyf ops) - c_frees (run junk cmp sort find adler_init adler_upd tyf ops) = 0.
-Proof. exact ledger_balanced. Qed.
-Print Assumptions C08_ledger_balanced_partial.
+Proof. exact ledger_balanced_full. Qed.
+Print Assumptions C08_ledger_balanced.
+
+(* the three hand-modelled loops compute their definitions, for every comparison function and every input:
+   sc_array_uniq (read/write counters) = uniq_spec; sc_array_split (binary search with offsets fill and step advance) =
+   split_spec on type-sorted input with types in [0, T); sc_array_permute (pivot / cycle loop) = permute_spec with
+   newindices ending as the identity, for every permutation.  (The fuel of the split loop in the model is 2n + T + 1
+   passes; the C loop has no bound.  2n passes are proved sufficient.) *)
+Theorem C08_loops_ok : forall cmp, loops_ok cmp.
+Proof. exact loops_ok_all. Qed.
+Print Assumptions C08_loops_ok.
 
 (* one step: the simulation relation R (ArrayRefine.v) is preserved by every legal call and the call returns the
    reference result; R holds initially.  (This is the induction step of C08_refines; its hypotheses on the loop
@@ -165,6 +172,34 @@ Print Assumptions C08_is_sorted.
 Theorem C08_is_sorted_01 : forall cmp l, is_sorted cmp l = 0 \/ is_sorted cmp l = 1.
 Proof. exact is_sorted_01. Qed.
 Print Assumptions C08_is_sorted_01.
+
+(* uniq: the result is a subsequence of the input, and - when cmp = 0 is an equivalence - no two neighbours are equal *)
+Theorem C08_uniq_subseq : forall cmp l, subseq (uniq_spec cmp l) l.
+Proof. exact uniq_spec_subseq. Qed.
+Print Assumptions C08_uniq_subseq.
+
+Theorem C08_uniq_adjacent_differ : forall cmp, (forall x, cmp x x = 0) -> (forall x y, cmp x y = 0 -> cmp y x = 0) ->
+  (forall x y z, cmp x y = 0 -> cmp y z = 0 -> cmp x z = 0) -> forall l, adjdiff cmp (uniq_spec cmp l).
+Proof. exact uniq_spec_adjdiff. Qed.
+Print Assumptions C08_uniq_adjacent_differ.
+
+(* split: on type-sorted input, offsets[k] <= i < offsets[k+1] exactly for the elements i of type k (unique boundaries) *)
+Theorem C08_split_boundaries : forall types T, sorted_z types = true ->
+  forallb (fun t => (0 <=? t) && (t <? T)) types = true ->
+  forall k i, 0 <= k < T -> (i < length types)%nat ->
+  (nthz (split_spec types T) k <= Z.of_nat i < nthz (split_spec types T) (k + 1) <-> nth i types 0 = k).
+Proof. exact split_spec_boundaries. Qed.
+Print Assumptions C08_split_boundaries.
+
+(* permute: the data that was at index i is at index newindices[i] afterwards; is_permutation decides permutations *)
+Theorem C08_permute_realises : forall (l : list (list Z)) ni, length ni = length l -> is_perm ni = 1 ->
+  forall i, (i < length l)%nat -> nth (Z.to_nat (nth i ni 0)) (permute_spec l ni) [] = nth i l [].
+Proof. exact permute_spec_nth. Qed.
+Print Assumptions C08_permute_realises.
+
+Theorem C08_is_permutation_iff : forall ni, is_perm ni = 1 <-> Permutation ni (map Z.of_nat (seq 0 (length ni))).
+Proof. exact is_perm_iff. Qed.
+Print Assumptions C08_is_permutation_iff.
 
 (* ===== the hypotheses are satisfiable ============================================================================ *)
 Example C08_legal_example :
